@@ -40,6 +40,9 @@ UCSC_NAME = {"bedgraphtobigwig": "bedGraphToBigWig", "bedtobigbed": "bedToBigBed
 
 
 # ------------------------------------------------------------ generators --
+STALE = "".join("chrOld\t%d\t%d\t0.5\tstale\n" % (i, i + 1) for i in range(6000))  # ~150 KB of an earlier output
+
+
 def _nlines(rng, tier):
     if tier == "quick":
         return rng.choice([1, 2, 3, 5, 8, 13, 30])
@@ -557,6 +560,10 @@ def _case(c, seed, tier, index, cwd):
 
     # ---- backward, whole file
     tags = []
+    if index % 3 != 0:
+        # the output path already holds an older, longer result: the tool must replace it, not write over its head
+        ct.write(cwd, "back.txt", STALE)
+        c.tag("output_file_preexists")
     argv = bwd_argv(cwd, kind, o["back"], big, "back.txt", tags=tags)
     c.tag(*tags)
     r = ct.run(argv, cwd)
@@ -593,6 +600,8 @@ def _case(c, seed, tier, index, cwd):
         return
     c.count("restricted_queries")
     tags = []
+    if index % 3 != 1:
+        ct.write(cwd, "restricted.txt", STALE)
     argv = bwd_argv(cwd, kind, b, big, "restricted.txt", tags=tags)
     c.tag(*tags)
     c.tag("restricted:" + "+".join(k for k in ("chrom", "start", "end") if b[k] is not None))
